@@ -20,31 +20,41 @@ impl Stream for Chan {
         let e = self.script.get(self.pos).copied().unwrap_or(-2);
         self.pos += 1;
         log_call(vec![self.id, 0, e]);
+        // a pending poll arranges to be woken: once through the borrowed waker, once through a clone that is woken by value
+        if e == -1 { _cx.waker().wake_by_ref(); _cx.waker().clone().wake(); }
         match e { -1 => Poll::Pending, x if x < 0 => Poll::Ready(None), v => Poll::Ready(Some(v as u32)) }
     }
 }
 impl Sink<u32> for Chan {
     type Error = u8;
-    fn poll_ready(self: Pin<&mut Self>, _cx: &mut Context<'_>) -> Poll<Result<(), u8>> { log_call(vec![self.id, 1, self.buf.len() as i64]); if self.closed { Poll::Ready(Err(9)) } else if self.buf.len() >= 2 { Poll::Pending } else { Poll::Ready(Ok(())) } }
+    fn poll_ready(self: Pin<&mut Self>, _cx: &mut Context<'_>) -> Poll<Result<(), u8>> { log_call(vec![self.id, 1, self.buf.len() as i64]); _cx.waker().wake_by_ref(); if self.closed { Poll::Ready(Err(9)) } else if self.buf.len() >= 2 { Poll::Pending } else { Poll::Ready(Ok(())) } }
     fn start_send(mut self: Pin<&mut Self>, item: u32) -> Result<(), u8> { log_call(vec![self.id, 2, item as i64]); if self.closed { return Err(9); } if item == 13 { return Err(13); } self.buf.push(item); Ok(()) }
-    fn poll_flush(mut self: Pin<&mut Self>, _cx: &mut Context<'_>) -> Poll<Result<(), u8>> { log_call(vec![self.id, 3, self.buf.len() as i64]); let b = std::mem::take(&mut self.buf); self.flushed.extend(b); Poll::Ready(Ok(())) }
-    fn poll_close(mut self: Pin<&mut Self>, _cx: &mut Context<'_>) -> Poll<Result<(), u8>> { log_call(vec![self.id, 4, self.buf.len() as i64]); self.closed = true; if self.buf.is_empty() { Poll::Ready(Ok(())) } else { Poll::Ready(Err(7)) } }
+    fn poll_flush(mut self: Pin<&mut Self>, _cx: &mut Context<'_>) -> Poll<Result<(), u8>> { log_call(vec![self.id, 3, self.buf.len() as i64]); _cx.waker().clone().wake(); let b = std::mem::take(&mut self.buf); self.flushed.extend(b); Poll::Ready(Ok(())) }
+    fn poll_close(mut self: Pin<&mut Self>, _cx: &mut Context<'_>) -> Poll<Result<(), u8>> { log_call(vec![self.id, 4, self.buf.len() as i64]); _cx.waker().wake_by_ref(); { let c = _cx.waker().clone(); let c2 = c.clone(); drop(c); c2.wake_by_ref(); } self.closed = true; if self.buf.is_empty() { Poll::Ready(Ok(())) } else { Poll::Ready(Err(7)) } }
 }
 impl core::fmt::Debug for Chan { fn fmt(&self, f: &mut core::fmt::Formatter<'_>) -> core::fmt::Result { log_call(vec![self.id, 5]); write!(f, "Chan#{}é", self.id) } }
 impl core::fmt::Display for Chan { fn fmt(&self, f: &mut core::fmt::Formatter<'_>) -> core::fmt::Result { log_call(vec![self.id, 6]); write!(f, "channel {}", self.id * 3) } }
 impl AsRef<[u8; 4]> for Chan { fn as_ref(&self) -> &[u8; 4] { log_call(vec![self.id, 7]); &self.tag } }
 
-unsafe fn nw_clone(_: *const ()) -> RawWaker { RawWaker::new(core::ptr::null(), &NW) }
-unsafe fn nw_noop(_: *const ()) {}
-static NW: RawWakerVTable = RawWakerVTable::new(nw_clone, nw_noop, nw_noop, nw_noop);
+// the caller's waker: counts wakes (by value and by reference), clones and releases of clones
+static WAKES: AtomicI64 = AtomicI64::new(0);
+static WCLONES: AtomicI64 = AtomicI64::new(0);
+static WRELEASED: AtomicI64 = AtomicI64::new(0);
+unsafe fn nw_clone(_: *const ()) -> RawWaker { WCLONES.fetch_add(1, SeqCst); RawWaker::new(1 as *const (), &NW) }
+unsafe fn nw_wake(p: *const ()) { WAKES.fetch_add(1, SeqCst); nw_drop(p); }
+unsafe fn nw_wake_ref(_: *const ()) { WAKES.fetch_add(1, SeqCst); }
+unsafe fn nw_drop(p: *const ()) { if !p.is_null() { WRELEASED.fetch_add(1, SeqCst); } }
+static NW: RawWakerVTable = RawWakerVTable::new(nw_clone, nw_wake, nw_wake_ref, nw_drop);
 fn with_cx<R>(f: impl FnOnce(&mut Context<'_>) -> R) -> R { let w = unsafe { Waker::from_raw(RawWaker::new(core::ptr::null(), &NW)) }; let mut cx = Context::from_waker(&w); f(&mut cx) }
 
 fn poll_code(p: Poll<Result<(), u8>>) -> Vec<i64> { match p { Poll::Pending => vec![-1], Poll::Ready(Ok(())) => vec![0], Poll::Ready(Err(e)) => vec![1, e as i64] } }
 fn digest(s: &str) -> i64 { s.bytes().fold(7i64, |h, b| (h * 31 + b as i64) % 1_000_003) }
 
-fn c_stream<S: Stream<Item = u32>>(s: &mut S) -> Vec<i64> { let p = with_cx(|cx| unsafe { Pin::new_unchecked(&mut *s) }.poll_next(cx)); match p { Poll::Pending => vec![0, -1], Poll::Ready(None) => vec![0, -2], Poll::Ready(Some(v)) => vec![0, v as i64] } }
+fn wakes() -> i64 { WAKES.load(SeqCst) }
+fn c_stream<S: Stream<Item = u32>>(s: &mut S) -> Vec<i64> { let w0 = wakes(); let p = with_cx(|cx| unsafe { Pin::new_unchecked(&mut *s) }.poll_next(cx)); let mut r = match p { Poll::Pending => vec![0, -1], Poll::Ready(None) => vec![0, -2], Poll::Ready(Some(v)) => vec![0, v as i64] }; r.push(wakes() - w0); r }
 fn c_sink<S: Sink<u32, Error = u8>>(s: &mut S, op: &[i64]) -> Vec<i64> {
     let mut r = vec![op[0]];
+    let w0 = wakes();
     let pin = unsafe { Pin::new_unchecked(&mut *s) };
     match op[0] {
         1 => r.extend(poll_code(with_cx(|cx| pin.poll_ready(cx)))),
@@ -52,6 +62,7 @@ fn c_sink<S: Sink<u32, Error = u8>>(s: &mut S, op: &[i64]) -> Vec<i64> {
         3 => r.extend(poll_code(with_cx(|cx| pin.poll_flush(cx)))),
         _ => r.extend(poll_code(with_cx(|cx| pin.poll_close(cx)))),
     }
+    r.push(100 + wakes() - w0);      // wakes of the caller's waker during this call
     r
 }
 fn c_dbg<S: core::fmt::Debug>(s: &S) -> Vec<i64> { let t = format!("{:?}", s); vec![5, t.len() as i64, digest(&t)] }
@@ -64,6 +75,7 @@ fn sink_state(c: &Chan) -> Vec<i64> { let mut v = vec![c.closed as i64, c.buf.le
 
 pub fn run(params: &[i64], ops: &Rows, mon: &mut Mon) -> Rows {
     let kind = params.get(0).copied().unwrap_or(0);
+    WCLONES.store(0, SeqCst); WRELEASED.store(0, SeqCst);
     let mut d = Chan::new(1);
     let res_d: Rows = ops.iter().map(|op| match family(op) { 0 => c_stream(&mut d), 1 => c_sink(&mut d, op), 2 => c_dbg(&d), 3 => c_dsp(&d), _ => c_asref(&d) }).collect();
     let log_d = take_log();
@@ -88,6 +100,7 @@ pub fn run(params: &[i64], ops: &Rows, mon: &mut Mon) -> Rows {
         each!(4, trait_obj!((Chan::new(1), c()) as AsRef), |o, op| c_asref(&o));
         if Arc::strong_count(&arc) != 1 { mon.fail(format!("context count {} after the objects are gone", Arc::strong_count(&arc))); }
     }
+    if WCLONES.load(SeqCst) != WRELEASED.load(SeqCst) { mon.fail(format!("the caller's waker was cloned {} times and its clones released {} times", WCLONES.load(SeqCst), WRELEASED.load(SeqCst))); }
     if res_d != res_o { let k = res_d.iter().zip(res_o.iter()).position(|(a, b)| a != b).unwrap_or(0); mon.fail(format!("call {} returns {:?} directly but {:?} through the object of its trait", k, res_d.get(k), res_o.get(k))); }
     for fam in 0..5 {
         let want: Vec<&Vec<i64>> = log_d.iter().filter(|e| fam_of_method(e[1]) == fam).collect();
